@@ -5,7 +5,7 @@ CONSTANTS
   FileIds = {1,2,3,4}
   CliIds = {1,2,3}
   SrvIds = {1,2}
-  TrackObs = FALSE
+  TrackObs = TRUE
   Dev = "none"
   SetupPlan <- Route_SetupPlan
   RegPlan <- Route_RegPlan
@@ -26,7 +26,7 @@ CONSTANTS
   MutPlan <- Route_MutPlan
   Splice = FALSE
   Reloads = FALSE
-  MaxFree = 100
+  MaxFree = 9
 INVARIANT Agreement
 INVARIANT ClientAcceptsOnlyMatched
 INVARIANT ServerAcceptsOnlyMatched
@@ -39,4 +39,6 @@ INVARIANT ReportedKeyIsSetupKey
 INVARIANT Oblivious
 INVARIANT ExportKeySeparated
 INVARIANT NoSecretOnWire
+INVARIANT EmitAtBound
+CONSTRAINT Bound
 CHECK_DEADLOCK FALSE
